@@ -1,2 +1,357 @@
+"""CPython models and kernel contracts for the CrossHair plugin (see chplugin.py).
+
+Models (exact, branch-light z3 encodings of C builtins CrossHair would otherwise concretise):
+  binascii.b2a_hex / hexlify, binascii.a2b_hex / unhexlify, int(<bytes of length <= 2>, 16),
+  `|`, `^`, `&` on symbolic ints known to lie in [0, 2**W) via Int2BV/BV2Int.
+Each model is validated against the CPython function on its small domain by validate_models().
+
+Contracts (over-approximations of leaf kernels justified by Engine-B lemmas):
+  crc : computeCRC(data) == swap16(fold(stepU, 0xFFFF, data)) with stepU an UNINTERPRETED function
+        Int x Int -> [0, 65535]  (K1 proves the real loop body is a total function 16-bit x 8-bit -> 16-bit;
+        anything CONFIRMED with the uninterpreted step holds for the real step).
+  lrc : computeLRC(data) == (-sum(data)) mod 256                      (K2)
+  bits: pack_bitstring / unpack_bitstring == LSB-first arithmetic form (K3)
+"""
+import binascii
+
+import z3
+from crosshair.core import _PATCH_REGISTRATIONS, realize, deep_realize
+from crosshair.libimpl import builtinslib as _bl
+from crosshair.libimpl.builtinslib import SymbolicBool, SymbolicBytes, SymbolicInt
+from crosshair.statespace import context_statespace
+from crosshair.tracers import NoTracing, ResumedTracing
+
+_orig_int = None
+
+
+def _z(x):
+    """z3 Int term for a (possibly symbolic) int/bool; None if not int-like. Call under NoTracing."""
+    if isinstance(x, SymbolicInt):
+        return x.var
+    if isinstance(x, SymbolicBool):
+        return z3.If(x.var, z3.IntVal(1), z3.IntVal(0))
+    if isinstance(x, bool):
+        return z3.IntVal(1 if x else 0)
+    if isinstance(x, int):
+        return z3.IntVal(x)
+    return None
+
+
+def _zb(x):
+    """z3 Bool term for the truthiness of a bit-like value. Call under NoTracing."""
+    if isinstance(x, SymbolicBool):
+        return x.var
+    if isinstance(x, SymbolicInt):
+        return x.var != 0
+    if isinstance(x, (bool, int)):
+        return z3.BoolVal(bool(x))
+    return None
+
+
+def _is_sym(x):
+    return isinstance(x, _bl.CrossHairValue)
+
+
+def _elements(data):
+    """List of per-byte values (ints or SymbolicInts) of a bytes-like with concrete length; under tracing."""
+    return [data[i] for i in range(len(data))]
+
+
+# --------------------------------------------------------------------------- binascii
+def _hexchar(zv):
+    # nibble 0..15 -> lowercase ascii code
+    return zv + z3.If(zv >= 10, z3.IntVal(87), z3.IntVal(48))
+
+
+def _b2a_hex(data, *a, **kw):
+    if a or kw:
+        return binascii.b2a_hex(deep_realize(data), *a, **kw)
+    elems = _elements(data)
+    with NoTracing():
+        if not any(_is_sym(e) for e in elems):
+            return binascii.b2a_hex(bytes(elems))
+        out = []
+        for e in elems:
+            ze = _z(e)
+            out.append(SymbolicInt(_hexchar(ze / 16)))
+            out.append(SymbolicInt(_hexchar(ze % 16)))
+        return SymbolicBytes(out)
+
+
+def _hexval(zc):
+    return z3.If(zc <= 57, zc - 48, z3.If(zc <= 70, zc - 55, zc - 87))
+
+
+def _ishex(zc):
+    return z3.Or(z3.And(zc >= 48, zc <= 57), z3.And(zc >= 65, zc <= 70), z3.And(zc >= 97, zc <= 102))
+
+
+def _a2b_hex(data):
+    if isinstance(data, str):
+        data = data.encode("ascii")
+    elems = _elements(data)
+    with NoTracing():
+        if not any(_is_sym(e) for e in elems):
+            return binascii.a2b_hex(bytes(elems))
+        if len(elems) % 2:
+            raise binascii.Error("Odd-length string")
+        zs = [_z(e) for e in elems]
+        allhex = z3.And(*[_ishex(c) for c in zs]) if zs else z3.BoolVal(True)
+        space = context_statespace()
+        if not space.smt_fork(allhex, probability_true=0.9):
+            raise binascii.Error("Non-hexadecimal digit found")
+        out = [SymbolicInt(_hexval(zs[i]) * 16 + _hexval(zs[i + 1])) for i in range(0, len(zs), 2)]
+        return SymbolicBytes(out)
+
+
+_SPECIAL = (9, 10, 11, 12, 13, 32, 43, 45, 95)   # whitespace, + - _  (the only non-digit bytes int() tolerates)
+
+
+def _int(*a, **kw):
+    """int(<bytes>, 16) for short byte strings with symbolic content; everything else -> stock model."""
+    if len(a) == 2 and not kw:
+        val, base = a
+        with NoTracing():
+            is_bytes = isinstance(val, SymbolicBytes) or (isinstance(val, (bytes, bytearray)))
+            base16 = (not _is_sym(base)) and base == 16
+        if is_bytes and base16:
+            n = len(val)
+            if n <= 2:
+                elems = _elements(val)
+                with NoTracing():
+                    if any(_is_sym(e) for e in elems):
+                        zs = [_z(e) for e in elems]
+                        space = context_statespace()
+                        allhex = z3.And(*[_ishex(c) for c in zs])
+                        if space.smt_fork(allhex, probability_true=0.9):
+                            v = z3.IntVal(0)
+                            for c in zs:
+                                v = v * 16 + _hexval(c)
+                            return SymbolicInt(v)
+                        anyspecial = z3.Or(*[z3.Or(*[c == s for s in _SPECIAL]) for c in zs])
+                        if not space.smt_fork(anyspecial, probability_true=0.1):
+                            # some byte is neither a hex digit nor a character int() tolerates
+                            raise ValueError("invalid literal for int() with base 16")
+                        # rare region (whitespace / sign / underscore): use the real int() on concrete bytes
+                        concrete = bytes(realize(e) for e in elems)
+                        return int(concrete, 16)
+    return _orig_int(*a, **kw)
+
+
+# --------------------------------------------------------------------------- bitwise ops on bounded ints
+import operator as ops
+
+BV_W = 16
+
+
+def _bounded(space, za, zb, w):
+    lim = z3.IntVal(2 ** w)
+    return space.smt_fork(z3.And(za >= 0, za < lim, zb >= 0, zb < lim), probability_true=0.95)
+
+
+def _bv_binop(op, a, b):
+    with NoTracing():
+        za, zb = _z(a), _z(b)
+        if za is None or zb is None:
+            return NotImplemented
+        space = context_statespace()
+        for w in (BV_W, 32):
+            if _bounded(space, za, zb, w):
+                x, y = z3.Int2BV(za, w), z3.Int2BV(zb, w)
+                r = {ops.and_: x & y, ops.or_: x | y, ops.xor: x ^ y}[op]
+                return SymbolicInt(z3.BV2Int(r, False))
+        return op(realize(a), realize(b))
+
+
+def _install_bitops():
+    from numbers import Integral
+    for a_t, b_t in ((SymbolicInt, SymbolicInt), (SymbolicInt, int), (int, SymbolicInt)):
+        for op in (ops.or_, ops.xor):
+            _bl._BIN_OPS_SEARCH_ORDER.append((op, a_t, b_t, _bv_binop))
+    # `&`: keep CrossHair's mod-encoding for 2**k-1 masks; BV only when both sides are symbolic
+    _bl._BIN_OPS_SEARCH_ORDER.append((ops.and_, SymbolicInt, SymbolicInt, _bv_binop))
+    _bl._BIN_OPS.clear()
+
+
+# --------------------------------------------------------------------------- contracts
+_STEP = None
+
+
+def _step_fn():
+    global _STEP
+    if _STEP is None:
+        _STEP = z3.Function("crc_stepU", z3.IntSort(), z3.IntSort(), z3.IntSort())
+    return _STEP
+
+
+def _make_crc_contract(real):
+    def computeCRC(data):
+        elems = _elements(data)
+        with NoTracing():
+            if not any(_is_sym(e) for e in elems):
+                return real(bytes(elems))
+            space = context_statespace()
+            f = _step_fn()
+            st = z3.IntVal(0xFFFF)
+            for e in elems:
+                st = f(st, _z(e))
+                space.add(z3.And(st >= 0, st <= 65535))
+            return SymbolicInt((st % 256) * 256 + st / 256)
+    return computeCRC
+
+
+def _make_lrc_contract(real):
+    def computeLRC(data):
+        elems = _elements(data)
+        with NoTracing():
+            if not any(_is_sym(e) for e in elems):
+                return real(bytes(elems))
+            s = z3.IntVal(0)
+            for e in elems:
+                s = s + _z(e)
+            return SymbolicInt((-s) % 256)
+    return computeLRC
+
+
+def _make_pack_contract(real):
+    def pack_bitstring(bits):
+        bits = list(bits)
+        with NoTracing():
+            if not any(_is_sym(b) for b in bits):
+                return real(bits)
+            zb = []
+            for b in bits:
+                t = _zb(b)
+                if t is None:
+                    t = z3.BoolVal(bool(realize(b)))
+                zb.append(t)
+            out = []
+            for j in range(0, len(zb), 8):
+                v = z3.IntVal(0)
+                for k, t in enumerate(zb[j:j + 8]):
+                    v = v + z3.If(t, z3.IntVal(1 << k), z3.IntVal(0))
+                out.append(SymbolicInt(v))
+            return SymbolicBytes(out)
+    return pack_bitstring
+
+
+def _make_unpack_contract(real):
+    def unpack_bitstring(string):
+        elems = _elements(string)
+        with NoTracing():
+            if not any(_is_sym(e) for e in elems):
+                return real(bytes(elems))
+            bits = []
+            for e in elems:
+                ze = _z(e)
+                for k in range(8):
+                    bits.append(SymbolicBool((ze / (1 << k)) % 2 == 1))
+            return bits
+    return unpack_bitstring
+
+
+def _struct_pack_method(self, *args):
+    """struct.Struct(fmt).pack(*args) (six.int2byte is Struct('>B').pack): route through CrossHair's struct.pack model."""
+    import struct
+    return struct.pack(self.format, *args)
+
+
 def install(INSTALLED, contracts=()):
-    pass
+    global _orig_int
+    if _orig_int is None:
+        _orig_int = _PATCH_REGISTRATIONS[int]
+    _PATCH_REGISTRATIONS[binascii.b2a_hex] = _b2a_hex
+    _PATCH_REGISTRATIONS[binascii.hexlify] = _b2a_hex
+    _PATCH_REGISTRATIONS[binascii.a2b_hex] = _a2b_hex
+    _PATCH_REGISTRATIONS[binascii.unhexlify] = _a2b_hex
+    INSTALLED["models"].append("binascii.b2a_hex/hexlify, a2b_hex/unhexlify: per-nibble z3 If encodings (one fork on 'all digits valid')")
+    _PATCH_REGISTRATIONS[int] = _int
+    INSTALLED["models"].append("int(<=2 symbolic bytes, 16): exact for hex digits and for bytes int() rejects; whitespace/sign/underscore region concretised and evaluated by the real int()")
+    import struct
+    _PATCH_REGISTRATIONS[struct.Struct.pack] = _struct_pack_method
+    INSTALLED["models"].append("struct.Struct.pack (six.int2byte) -> CrossHair's struct.pack model")
+    _install_bitops()
+    INSTALLED["models"].append("int |, ^, & (both symbolic) on values in [0,2**16) or [0,2**32): Int2BV/BV2Int; outside that range concretised")
+    import pymodbus.utilities as U
+    if "crc" in contracts:
+        _PATCH_REGISTRATIONS[U.computeCRC] = _make_crc_contract(U.computeCRC)
+        INSTALLED["contracts"].append("computeCRC(data) = swap16(fold(stepU, 0xFFFF, data)), stepU uninterpreted Int x Int -> [0,65535] (justified by lemma K1)")
+    if "lrc" in contracts:
+        _PATCH_REGISTRATIONS[U.computeLRC] = _make_lrc_contract(U.computeLRC)
+        INSTALLED["contracts"].append("computeLRC(data) = (-sum(data)) mod 256 (lemma K2)")
+    if "bits" in contracts:
+        _PATCH_REGISTRATIONS[U.pack_bitstring] = _make_pack_contract(U.pack_bitstring)
+        _PATCH_REGISTRATIONS[U.unpack_bitstring] = _make_unpack_contract(U.unpack_bitstring)
+        INSTALLED["contracts"].append("pack_bitstring / unpack_bitstring = LSB-first arithmetic form, zero padding (lemma K3)")
+
+
+# --------------------------------------------------------------------------- model validation
+def validate_models(seed=0):
+    """Compare each z3 model with the CPython function it replaces on its complete small domain.
+
+    Pure z3 evaluation (no CrossHair): returns (n_cases, list_of_mismatches).
+    """
+    import random
+    n, bad = 0, []
+    x = z3.Int("x")
+    hc = _hexchar(x)
+    for v in range(16):
+        n += 1
+        got = z3.simplify(z3.substitute(hc, (x, z3.IntVal(v)))).as_long()
+        if got != ord("%x" % v):
+            bad.append(("hexchar", v, got))
+    hv, ih = _hexval(x), _ishex(x)
+    for c in range(256):
+        n += 1
+        isx = z3.is_true(z3.simplify(z3.substitute(ih, (x, z3.IntVal(c)))))
+        real = chr(c) in "0123456789abcdefABCDEF"
+        if isx != real:
+            bad.append(("ishex", c, isx))
+        if real:
+            got = z3.simplify(z3.substitute(hv, (x, z3.IntVal(c)))).as_long()
+            if got != int(chr(c), 16):
+                bad.append(("hexval", c, got))
+    # b2a_hex / a2b_hex on all 256 bytes through the real functions
+    for v in range(256):
+        n += 1
+        exp = binascii.b2a_hex(bytes([v]))
+        got = bytes([z3.simplify(z3.substitute(_hexchar(x / 16), (x, z3.IntVal(v)))).as_long(),
+                     z3.simplify(z3.substitute(_hexchar(x % 16), (x, z3.IntVal(v)))).as_long()])
+        if got != exp:
+            bad.append(("b2a_hex", v, got))
+    # int(b, 16) on every 1- and 2-byte string: model region classification vs real int()
+    def real_int(bs):
+        try:
+            return int(bs, 16)
+        except ValueError:
+            return None
+    for c0 in range(256):
+        for c1 in list(range(256)) + [None]:
+            n += 1
+            bs = bytes([c0]) if c1 is None else bytes([c0, c1])
+            allhex = all(chr(c) in "0123456789abcdefABCDEF" for c in bs)
+            special = any(c in _SPECIAL for c in bs)
+            r = real_int(bs)
+            if allhex:
+                v = 0
+                for c in bs:
+                    v = v * 16 + (c - 48 if c <= 57 else (c - 55 if c <= 70 else c - 87))
+                if r != v:
+                    bad.append(("int16", bs, r, v))
+            elif not special:
+                if r is not None:
+                    bad.append(("int16-reject", bs, r))
+    # bit ops
+    rnd = random.Random(seed)
+    a, b = z3.Int("a"), z3.Int("b")
+    cases = [(i, j) for i in range(0, 256, 17) for j in range(0, 256, 13)] + \
+            [(rnd.randrange(65536), rnd.randrange(65536)) for _ in range(200)]
+    for (i, j) in cases:
+        for name, pyop in (("and", ops.and_), ("or", ops.or_), ("xor", ops.xor)):
+            n += 1
+            X, Y = z3.Int2BV(z3.IntVal(i), 16), z3.Int2BV(z3.IntVal(j), 16)
+            r = {"and": X & Y, "or": X | Y, "xor": X ^ Y}[name]
+            got = z3.simplify(z3.BV2Int(r, False)).as_long()
+            if got != pyop(i, j):
+                bad.append((name, i, j, got))
+    return n, bad
